@@ -53,7 +53,7 @@ func (fr *Frame) step(st *State, ins ssa.Instruction) {
 	env := st.env()
 	switch i := ins.(type) {
 	case *ssa.DebugRef:
-		if fr.top {
+		if fr.top || fr.named {
 			if id, ok := i.Expr.(*ast.Ident); ok {
 				val, ok := env[i.X]
 				if !ok {
@@ -96,7 +96,7 @@ func (fr *Frame) step(st *State, ins ssa.Instruction) {
 		o := v.newObject(fr.fn.Name()+"."+name, t, false)
 		st.mem[o] = v.zeroValue(t)
 		env[i] = &PtrV{Obj: o}
-		if fr.top && i.Comment != "" {
+		if (fr.top || fr.named) && i.Comment != "" {
 			v.localNames[o] = i.Comment
 			st.srcVar[i.Comment] = env[i]
 			st.srcAdr[i.Comment] = true
